@@ -6,12 +6,12 @@
   deliver <enabled> <minFee> <gasPool> <newAddr|~>
           <from> <to|~> <nonce> <value> <gas> <price> <nz> <z> <size> <memo|x>
           <sigs> <sigOk> <chainOk> <senderOk> <feeCurOk> <amtCurOk> <addrOk> <chainNil>
-          <vmGasLeft> <vmRefund> <vmFailed> <vmRetCode> <effs|-> <touched|->
+          <payloadCanon> <signerKeyOk> <typeOk> <memoCanon>
+          <vmGasLeft> <vmRefund> <vmFailed> <vmRetCode> <effs|->
           <pool> <accts>
   check   (same fields; the vm fields are ignored)
 
     effs  = comma separated  s:<addr>:<n> | a:<addr>:<n> | x:<addr>
-    touched = comma separated addresses
     accts = comma separated  <addr>=<balance>:<nonce>:<code 0|1>   or   <addr>=<balance>:~   (no keeper record)
 
   out: code <c> stage <name> used <gasUsed> wanted <gasWanted> pool <n> accts <same addresses, same order>
@@ -63,7 +63,8 @@ def showAcct (w : World) (a : Addr) : String :=
   | some r => s!"{a}={b}:{r.nonce}:{if r.code then 1 else 0}"
 
 def showVErr : VErr → String
-  | .notEnabled => "notEnabled" | .sigCount => "sigCount" | .sigBad => "sigBad" | .chainId => "chainId"
+  | .notEnabled => "notEnabled" | .payloadEnc => "payloadEnc" | .signerKey => "signerKey" | .txType => "txType"
+  | .sigCount => "sigCount" | .sigBad => "sigBad" | .chainId => "chainId"
   | .sender => "sender" | .feeCurrency => "feeCurrency" | .feePrice => "feePrice" | .currency => "currency"
   | .address => "address" | .oversized => "oversized" | .negative => "negative" | .gasLimit => "gasLimit"
   | .nonceLow => "nonceLow" | .funds => "funds" | .intrinsic => "intrinsic" | .memoParse => "memoParse"
@@ -105,7 +106,7 @@ def pathTag (env : Env) (s : St) (tx : Tx) (vm : VmOut) : String :=
           if !evmCode s1 to then s!"call:{ex}:nocode" ++ (if tx.value = 0 then ":v0" else ":v+")
           else "call:code" ++ (if vm.failed then ":failed" else ":ok") ++ (if tx.value = 0 then ":v0" else ":v+") ++
                (if vm.effs.isEmpty then "" else ":effs") ++ (if vm.refund = 0 then "" else ":refund") ++
-               (if vm.touched.isEmpty then "" else ":touched")
+               (if noSuicide vm.effs then "" else ":selfdestruct")
 
 structure Parsed where
   env : Env
@@ -116,9 +117,10 @@ structure Parsed where
 
 def parseFields (f : List String) : Option Parsed :=
   match f with
-  | [enabled, minFee, gasPool, newAddr, from_, to, nonce, value, gas, price, nz, z, size, memo,
+  | enabled :: minFee :: gasPool :: newAddr :: [from_, to, nonce, value, gas, price, nz, z, size, memo,
      sigs, sigOk, chainOk, senderOk, feeCurOk, amtCurOk, addrOk, chainNil,
-     vmGasLeft, vmRefund, vmFailed, vmRetCode, effs, touched, pool, accts] =>
+     payloadCanon, signerKeyOk, typeOk, memoCanon,
+     vmGasLeft, vmRefund, vmFailed, vmRetCode, effs, pool, accts] =>
     match minFee.toInt?, gasPool.toNat?, nonce.toNat?, value.toInt?, gas.toInt?, price.toInt?, nz.toNat?, z.toNat? with
     | some minFee, some gasPool, some nonce, some value, some gas, some price, some nz, some z =>
       match size.toNat?, sigs.toNat?, vmGasLeft.toNat?, vmRefund.toNat?, parseEffs effs, pool.toInt?, parseAccts accts with
@@ -128,9 +130,9 @@ def parseFields (f : List String) : Option Parsed :=
           tx := { sender := from_, to := optAddr to, nonce := nonce, value := value, gas := gas, price := price, nz := nz, z := z,
                   size := size, memo := if memo == "x" then none else memo.toNat?, sigs := sigs, sigOk := b01 sigOk,
                   chainOk := b01 chainOk, senderOk := b01 senderOk, feeCurOk := b01 feeCurOk, amtCurOk := b01 amtCurOk,
-                  addrOk := b01 addrOk, chainNil := b01 chainNil },
-          vm := { gasLeft := vmGasLeft, refund := vmRefund, failed := b01 vmFailed, retCode := b01 vmRetCode, effs := effs,
-                  touched := if touched == "-" then [] else touched.splitOn "," },
+                  addrOk := b01 addrOk, chainNil := b01 chainNil, payloadCanon := b01 payloadCanon,
+                  signerKeyOk := b01 signerKeyOk, typeOk := b01 typeOk, memoCanon := b01 memoCanon },
+          vm := { gasLeft := vmGasLeft, refund := vmRefund, failed := b01 vmFailed, retCode := b01 vmRetCode, effs := effs },
           pool := pool, accts := accts }
       | _, _, _, _, _, _, _ => none
     | _, _, _, _, _, _, _, _ => none
@@ -148,7 +150,7 @@ def stepLine (line : String) : String :=
       let s : St := ⟨mkWorld p.pool p.accts, []⟩
       let (s', r) := deliverOlvm p.env s p.tx p.vm
       let addrs := p.accts.map (·.1)
-      s!"code {r.code} stage {showStage r.stage} used {r.gasUsed} wanted {r.gasWanted} pool {s'.w.pool} live {s'.cache.length} accts " ++
+      s!"code {r.code} stage {showStage r.stage} used {r.gasUsed} wanted {r.gasWanted} pool {s'.w.pool} burnt {burnt p.env s p.tx p.vm} live {s'.cache.length} accts " ++
         (if addrs.isEmpty then "-" else ",".intercalate (addrs.map (showAcct s'.w))) ++ " path " ++ pathTag p.env s p.tx p.vm
   | "check" :: f =>
     match parseFields f with
